@@ -790,6 +790,9 @@ def run(run: core.Run) -> int:
             if hand and "err" in real:
                 run.violation("read_routines_refuses_documented_input",
                               f"read_routines raises {real['err']}: {real.get('msg', '')[:100]} on a documented document", {"document": json.dumps(d["doc"])[:2500]})
+        if stats["read_no_answer"] > max(3, len(all_docs) // 100):
+            run.broken_tie(f"correspondence C15: read_routines gave no answer for {stats['read_no_answer']} of {len(all_docs)} documents (adapter broken?)",
+                           {"channel": "cli.read", "notes": run.notes[:3]})
         for j, k in enumerate(printed_keys):
             shape = reps[2 * nb + 2 * nd + j].get("ok")
             hand = not doc_errors(docs_printed[k])
